@@ -150,3 +150,20 @@ func TestAclWriteGranteeCannotWriteTheBucketPolicy(t *testing.T) {
 		t.Errorf("bob (ACL WRITE only) PUT ?policy: %d; he now reads the owner's object: %d %q; the owner's own GET answers %d", r.Status, got.Status, got.Body, own.Status)
 	}
 }
+
+// Tags sent with PutObject (x-amz-tagging) were written although the policy denies the caller s3:PutObjectTagging.
+func TestTagsOnPutObjectNeedTheTaggingPermission(t *testing.T) {
+	g := gwtest.Start(t, gwtest.Options{})
+	u := g.AddUser("user1", "secret1", auth.RoleUser)
+	g.MustStatus(g.Put(g.RootC, "/bkt", nil, nil), 200, "create bucket")
+	g.MustStatus(g.Put(g.RootC, "/bkt?policy", policy(stmt("Allow", "user1", "s3:PutObject", "arn:aws:s3:::bkt/*"),
+		stmt("Allow", "user1", "s3:GetObjectTagging", "arn:aws:s3:::bkt/*"), stmt("Deny", "user1", "s3:PutObjectTagging", "arn:aws:s3:::bkt/*")), nil), 200, "put policy")
+	if r := g.Put(u, "/bkt/plain", []byte("x"), nil); r.Status != 200 {
+		t.Fatalf("PutObject without tags is allowed by the policy: %s", r)
+	}
+	r := g.Put(u, "/bkt/tagged", []byte("x"), map[string]string{"X-Amz-Tagging": "a=b"})
+	tg := g.Get(g.RootC, "/bkt/tagged?tagging", nil)
+	if r.Status/100 == 2 || strings.Contains(string(tg.Body), "<Key>a</Key>") {
+		t.Errorf("PutObject with x-amz-tagging although s3:PutObjectTagging is denied: %d; tags now: %d %s", r.Status, tg.Status, tg.Body)
+	}
+}
